@@ -660,21 +660,32 @@ theorem cli_request_passes_own_gate (cfg : AdminCfg) (h : Bytes) (p : Nat) (ip :
 
 /-- **after every load the only admin servers still listening are those of the CURRENT config** —
     for every history of loads (endpoints switched on and off, moved between addresses, access
-    lists changed): the remote endpoint is down if the last config has no `admin.remote`, else
-    exactly one remote server listens, on the configured address, enforcing the configured access
-    list; the local endpoint is down if the last config disables it, else exactly one local server
-    listens on the configured address.  No server of an earlier config survives. -/
-theorem only_current_config_servers_live (pre : List LoadCfg) (c : LoadCfg) :
+    lists and origins changed, and loads REJECTED because the admin listener could not be bound
+    anywhere in between): if the last load succeeded, the remote endpoint is down if its config has
+    no `admin.remote`, else exactly one remote server listens, on the configured address,
+    enforcing the configured access list; the local endpoint is down if the config disables it,
+    else exactly one local server listens, on the configured address, with the configured policy.
+    No server of an earlier config survives. -/
+theorem only_current_config_servers_live (pre : List LoadCfg) (c : LoadCfg) (hok : c.loc ≠ .blocked) :
     (c.remote = none → (afterHistory (pre ++ [c])).liveRemote = []) ∧
     (∀ a acl, c.remote = some (a, acl) → ∃ id, (afterHistory (pre ++ [c])).liveRemote = [⟨id, a, acl⟩]) ∧
     (c.loc = .disabled → (afterHistory (pre ++ [c])).liveLocal = []) ∧
-    (∀ a, c.loc = .listen a → ∃ id, (afterHistory (pre ++ [c])).liveLocal = [⟨id, a⟩]) := by
+    (∀ a t, c.loc = .listen a t → ∃ id, (afterHistory (pre ++ [c])).liveLocal = [⟨id, a, t⟩]) := by
   have hpre := foldl_inv pre Life.init init_inv.1 init_inv.2
-  have h := load_step (pre.foldl load Life.init) c hpre.1 hpre.2
+  have h := load_step (pre.foldl load Life.init) c hok hpre.1 hpre.2
   have heq : afterHistory (pre ++ [c]) = load (pre.foldl load Life.init) c := by
     simp [afterHistory, List.foldl_append]
   rw [heq]
   exact ⟨h.2.2.1, h.2.2.2.1, h.2.2.2.2.1, h.2.2.2.2.2⟩
+
+/-- **a rejected load leaves everything as it was** — the servers that listen, AND the package
+    variables through which the next load will stop them: a load whose admin listener cannot be
+    bound is a no-op, so any history has the state of its successful loads alone, and after it
+    the live servers are those of the last load that SUCCEEDED. -/
+theorem failed_loads_change_nothing (hist : List LoadCfg) :
+    (∀ s c, c.loc = .blocked → load s c = s) ∧
+    afterHistory hist = afterHistory (hist.filter (fun c => c.loc != .blocked)) :=
+  ⟨load_blocked, foldl_filter_blocked hist Life.init⟩
 
 /-- **the remote clause over histories, not just per request**: after any history of loads, whatever
     remote admin server is still listening, a request it serves — any handler invocation, /id/
@@ -683,12 +694,13 @@ theorem only_current_config_servers_live (pre : List LoadCfg) (c : LoadCfg) :
     A key that only an earlier config listed is never served, and once `admin.remote` is removed
     nothing is. -/
 theorem served_remotely_only_if_current_config_authorises (H : Bytes → Req → σ → σ) (mux : Bytes → Bytes → Route)
-    (pre : List LoadCfg) (c : LoadCfg) (srv : RSrv) (hsrv : srv ∈ (afterHistory (pre ++ [c])).liveRemote)
+    (pre : List LoadCfg) (c : LoadCfg) (hok : c.loc ≠ .blocked) (srv : RSrv)
+    (hsrv : srv ∈ (afterHistory (pre ++ [c])).liveRemote)
     (h : Handler) (hh : h.remote = some srv.acl)
     (idx : Index) (fuel : Nat) (r : Req) (s : σ) (d : Dispatch) (hd : d ∈ (serveHTTP H mux h idx fuel r s).trace) :
     ∃ a acl chains, c.remote = some (a, acl) ∧ srv.addr = a ∧ r.tls = some chains ∧
       Authorised acl chains r.method d.path := by
-  have hlive := only_current_config_servers_live pre c
+  have hlive := only_current_config_servers_live pre c hok
   cases hc : c.remote with
   | none => rw [hlive.1 hc] at hsrv; simp at hsrv
   | some p =>
@@ -704,10 +716,13 @@ theorem served_remotely_only_if_current_config_authorises (H : Bytes → Req →
     (`Gen/AdminGate.lean`, regenerated on every run): both replace functions register a `defer`
     that stops the previous server; in `replaceRemoteAdminServer` the only returning guard in front
     of it is `cfg == nil` (so "no admin.remote" returns AFTER the stop is registered), in
-    `replaceLocalAdminServer` there is none (so `admin.disabled` stops the previous server too). -/
+    `replaceLocalAdminServer` there is none (so `admin.disabled` stops the previous server too), and
+    there the assignment to `localAdminServer` comes after the `Listen` call and its error return
+    (so a failed bind leaves the variable on the server that is really running). -/
 theorem admin_lifecycle_matches_source :
     Gen.remoteStopsPreviousServer = true ∧ Gen.remoteGuardsBeforeStop = ["cfg==nil"] ∧
-    Gen.localStopsPreviousServer = true ∧ Gen.localGuardsBeforeStop = [] := by
+    Gen.localStopsPreviousServer = true ∧ Gen.localGuardsBeforeStop = [] ∧
+    Gen.localServerAssignedAfterBind = true := by
   decide
 
 -- ================================================================ termination
@@ -924,11 +939,14 @@ example : determineAdminAddr (str "127.0.0.1:2999") (some (str "localhost:2019")
 example : SpecificAddress ⟨sTcp, str "192.168.1.5", 2019, .other⟩ ∧ Addr.isLoopback ⟨sTcp, str "192.168.1.5", 2019, .other⟩ = false := by decide
 -- lifecycle: a history that switches the remote endpoint on (key 0), changes its list (key 1), then off
 def exHist : List LoadCfg :=
-  [⟨.listen 0, some (2, [⟨[0], []⟩])⟩, ⟨.listen 0, some (2, [⟨[1], []⟩])⟩, ⟨.listen 1, none⟩]
+  [⟨.listen 0 false, some (2, [⟨[0], []⟩])⟩, ⟨.listen 0 false, some (2, [⟨[1], []⟩])⟩, ⟨.listen 1 false, none⟩]
 example : (afterHistory (exHist.take 1)).liveRemote = [⟨1, 2, [⟨[0], []⟩]⟩]
     ∧ (afterHistory (exHist.take 2)).liveRemote = [⟨3, 2, [⟨[1], []⟩]⟩]
-    ∧ (afterHistory exHist).liveRemote = [] ∧ (afterHistory exHist).liveLocal = [⟨4, 1⟩]
+    ∧ (afterHistory exHist).liveRemote = [] ∧ (afterHistory exHist).liveLocal = [⟨4, 1, false⟩]
     ∧ ([0, 1].map (keyAnswer [⟨[1], []⟩])) = ['r', 's'] := by decide
+-- failed_loads_change_nothing: loose endpoint, a load that cannot bind, then the origins are tightened
+example : (afterHistory [⟨.listen 0 false, none⟩, ⟨.blocked, none⟩, ⟨.listen 0 true, none⟩]).liveLocal = [⟨1, 0, true⟩]
+    ∧ afterHistory [⟨.listen 0 false, none⟩, ⟨.blocked, none⟩] = afterHistory [⟨.listen 0 false, none⟩] := by decide
 -- serve_never_runs_out_of_fuel: a two-hop chain ends within 2 hops, a cyclic index does not
 example : (idChain [(str "a", str "/id/b"), (str "b", str "/config/x")] 2 (str "/id/a")).isSome = true := by decide
 example : (idChain [(str "a", str "/id/a")] 16 (str "/id/a")).isSome = false := by decide
